@@ -1,6 +1,6 @@
 (* EXTRACT-Z: c13 run_c13 *)
 (* Executable entry point for the C13 correspondence (and the accessor half of C18). *)
-From OM Require Import Base.Lists Base.Wire Maths.Dense Maths.DenseModel.
+From OM Require Import Base.Lists Base.Wire Maths.Dense Maths.DenseModel Maths.Alias.
 Local Open Scope Z_scope.
 
 Definition getDense : dec dense :=
@@ -88,6 +88,7 @@ Definition run_c13 (w : wire) : wire :=
   | 64 :: w => d2 getSym getZ (fun A x => outOpt (s_scale A x) outSym) w
   | 65 :: w => d1 getDense (fun M => outOpt (s_of_dense M) outSym) w
   | 66 :: w => d5 getSym getZ getZ getZ getZ (fun S a b c d => outOpt (s_block S a b c d) outDense) w
+  | 70 :: w => d4 getVec getN getN getZ (fun data who k x => let '(a, b, c) := copy_scenario data who k x in ST_OK :: zn (length a) :: a ++ b ++ c) w
   (* pinned variants (regression witnesses of repaired defects) *)
   | 103 :: w => d5 getDense getZ getZ getZ getZ (fun M a b c d => outOpt (m_submat_pinned M a b c d) outDense) w
   | 117 :: w => d2 getDense getVec (fun A v => outOpt (m_mulv_pinned A v) outVec) w
